@@ -131,7 +131,7 @@ def sankey_cases(draw):
 
 class Sankey(Facet):
     name = "sankey"
-    examples = {"quick": 1600, "thorough": 24000}
+    examples = {"quick": 3200, "thorough": 48000}
     shards = {"quick": 16, "thorough": 16}
 
     def strategy(self, tier):
@@ -206,8 +206,20 @@ def run_plot(desc, which):
         # items of the x dimension: plotted as they are
         exp = Counter({(si, tuple(str(v) for v in xs), ys): c for (si, xs, ys), c in exp.items()})
     got = Counter()
+    second = desc.get("second")
+    if second:
+        # a second array with the same roles drawn into the existing figure: both sets of lines must be there
+        d2 = dict(desc, x=dict(desc["x"], tag="z"), second=None)
+        exp2 = expected_lines(U, d2)
+        if desc.get("x_array") is None:
+            exp2 = Counter({(si, tuple(str(v) for v in xs), ys): c for (si, xs, ys), c in exp2.items()})
+        exp = exp + exp2
+    ct = desc.get("chart_type", "line")
     if which == "plotly":
-        fig = PlotlyArrayPlotter(**kw).plot()
+        fig = PlotlyArrayPlotter(chart_type=ct, **kw).plot()
+        if second:
+            kw2 = dict(kw, array=build.array(U, dict(desc["x"], tag="z")), fig=fig)
+            fig = PlotlyArrayPlotter(chart_type=ct, **kw2).plot()
         for tr in fig.data:
             ax = tr.xaxis or "x"
             si = 0 if ax == "x" else int(ax[1:]) - 1
@@ -219,6 +231,9 @@ def run_plot(desc, which):
         from matplotlib import pyplot as plt
 
         fig = PyplotArrayPlotter(**kw).plot()
+        if second:
+            kw2 = dict(kw, array=build.array(U, dict(desc["x"], tag="z")), fig=fig)
+            fig = PyplotArrayPlotter(**kw2).plot()
         try:
             for si, ax in enumerate(fig.axes):
                 for line in ax.lines:
@@ -229,13 +244,13 @@ def run_plot(desc, which):
         miss = list((exp - got).items())[:2]
         extra = list((got - exp).items())[:2]
         raise Violation(f"{which}-lines-differ", f"missing {miss} unexpected {extra}; roles {roles} by_name {desc['by_name']} x_array {desc.get('x_array', {}).get('letters') if desc.get('x_array') else None} dims {desc['x']['letters']}")
-    return {"nontrivial": len(roles) == 3, "classes": [f"ndim:{len(roles)}"] + (["x_array"] if desc.get("x_array") else []) + (["by-name"] if any(desc["by_name"].values()) else ["by-letter"])}
+    return {"nontrivial": len(roles) == 3, "classes": [f"ndim:{len(roles)}"] + (["second-array-into-existing-figure"] if second else []) + ([f"chart:{ct}"] if which == "plotly" else []) + (["x_array"] if desc.get("x_array") else []) + (["by-name"] if any(desc["by_name"].values()) else ["by-letter"])}
 
 
 @st.composite
 def plot_cases(draw):
-    U = draw(gen.universes(min_dims=1, max_dims=3, max_len=3, min_len=1))
-    n = draw(st.integers(1, len(U["dims"])))
+    U = draw(gen.universes(min_dims=3, max_dims=3, max_len=3, min_len=1))
+    n = draw(st.sampled_from([1, 2, 2, 3, 3, 3]))
     letters = list(draw(st.permutations(gen.uletters(U))))[:n]
     x = draw(gen.arrays(U, letters=letters, modes=("coded",)))
     role_names = {1: [["x"]], 2: [["x", "line"], ["x", "subplot"]], 3: [["x", "line", "subplot"]]}[n]
@@ -245,12 +260,14 @@ def plot_cases(draw):
     if draw(st.booleans()):
         xl = draw(gen.ordered_subtuple(letters, min_size=0))
         desc["x_array"] = {"letters": xl, "mode": "coded", "tag": "y"}
+    desc["second"] = draw(st.sampled_from([False, False, True]))
+    desc["chart_type"] = draw(st.sampled_from(["line", "line", "scatter", "area"]))
     return desc
 
 
 class Plotly(Facet):
     name = "plotly"
-    examples = {"quick": 800, "thorough": 12000}
+    examples = {"quick": 2400, "thorough": 30000}
     shards = {"quick": 16, "thorough": 16}
 
     def strategy(self, tier):
@@ -262,7 +279,7 @@ class Plotly(Facet):
 
 class Pyplot(Facet):
     name = "pyplot"
-    examples = {"quick": 400, "thorough": 6000}
+    examples = {"quick": 1200, "thorough": 15000}
     shards = {"quick": 16, "thorough": 16}
 
     def strategy(self, tier):
